@@ -246,7 +246,8 @@ func (e *Executor) getTaskFunc(
 		// - The target is not tainted (!isTainted)
 		// - The target does not have no-cache set (!target.SkipsCache)
 		// - The cache is enabled (enableCache)
-		if target.HasCacheHit && !isTainted && !target.SkipsCache() && e.enableCache {
+		// - The output checks pass (outputCheckErr == nil)
+		if target.HasCacheHit && !isTainted && !target.SkipsCache() && e.enableCache && outputCheckErr == nil {
 			if e.loadOutputsMode == config.LoadOutputsMinimal {
 				// Important: Set the output hash so that descendants can compute their change hashes
 				target.OutputHash = targetResult.OutputHash
